@@ -66,6 +66,8 @@ def step (line : String) : String :=
   | ["urltrav", t] => UrlOps.opUrlTrav t
   | ["escall", e, t] => EscOps.opEscAll e t
   | ["unesc", t] => EscOps.opUnesc t
+  | ["decode", t] => EscOps.opDecode t
+  | ["norm", t] => EscOps.opNorm t
   | ["sel", ns, hex] => SelOps.opSel ns hex
   | ["num", fx, om, hex] => NumOps.opNum fx om hex
   | ["numval", hex] => NumOps.opVal hex
